@@ -159,14 +159,14 @@ pub fn worker(a: WorkerArgs) -> i32 {
     std::panic::set_hook(Box::new(|_| {}));
     let cur_path = a.workdir.join(format!("w{}.cur", a.w));
     let mut cur_file = std::fs::OpenOptions::new().create(true).write(true).truncate(true).open(&cur_path).expect("cur file");
-    // watchdog: a run that makes no progress for 5 s is a hang
+    // watchdog: a run that makes no progress for 20 s is a hang (the longest legitimate run takes milliseconds; the margin is for a loaded machine)
     {
         let wpath = a.workdir.join(format!("w{}.hang", a.w));
         std::thread::spawn(move || loop {
             std::thread::sleep(Duration::from_millis(250));
             let run = CUR_RUN.load(Ordering::SeqCst);
             let since = CUR_SINCE_MS.load(Ordering::SeqCst);
-            if run != u64::MAX && now_ms(t0).saturating_sub(since) > 5000 {
+            if run != u64::MAX && now_ms(t0).saturating_sub(since) > 20_000 {
                 let _ = std::fs::write(&wpath, run.to_string());
                 std::process::exit(3);
             }
@@ -228,7 +228,7 @@ pub fn worker(a: WorkerArgs) -> i32 {
                 }
                 seen_sigs.insert(v.signature.clone());
                 // minimise (the candidate is written ahead so a crash during shrinking is attributable)
-                CUR_SINCE_MS.store(now_ms(t0) + 20_000, Ordering::SeqCst); // shrinking gets its own budget
+                CUR_SINCE_MS.store(now_ms(t0) + 30_000, Ordering::SeqCst); // shrinking gets its own budget
                 let exec = |s: &Scenario| execute(s, false);
                 let (min_sc, execs) = crate::min::minimise(&sc, &v.signature, names, &exec, 3000, Duration::from_secs(10));
                 let rr = execute(&min_sc, true);
